@@ -111,10 +111,11 @@ class _Worker:
         return None
 
 
-def map_children(modname, funcname, cases, timeout=30, workers=None, env=None, confirm=True):
+def map_children(modname, funcname, cases, timeout=30, workers=None, env=None, confirm=False):
     """[f(case) for case in cases], each in a child (workers are reused until they hang or die).
-    A case that ran out of time is run once more, with few other children beside it and four times the limit, before it is
-    reported as {"timeout": ...}: a loaded machine must not look like a hang."""
+    With confirm=True (the checks for which a time-out is part of the verdict) a case that ran out of time is run once more, with few
+    other children beside it and four times the limit, before it is reported as {"timeout": ...}: a loaded machine must not look like
+    a hang.  Checks that merely discard what did not finish leave it off."""
     res = _map_children(modname, funcname, cases, timeout, workers, env)
     if confirm:
         late = [k for k, r in enumerate(res) if isinstance(r, dict) and "timeout" in r]
